@@ -17,6 +17,7 @@ src: dlinked_list.c, linked_list.c, obj.c
 tier: B
 backend: cadical
 unwind: 10
+unwind_thorough: 12
 flags: --memory-leak-check
 bound: list length <= 4, elements NULL placeholders or any key
 funcs: spif_dlinked_list_done, spif_dlinked_list_del, spif_dlinked_list_item_del, spif_dlinked_list_item_done, spif_dlinked_list_append
@@ -28,6 +29,7 @@ src: dlinked_list.c, linked_list.c, obj.c
 tier: B
 backend: cadical
 unwind: 10
+unwind_thorough: 12
 flags: --memory-leak-check
 bound: list length <= 4, all 2^32 index values, all key values
 funcs: spif_dlinked_list_remove_at, spif_dlinked_list_remove, spif_dlinked_list_del
@@ -39,6 +41,7 @@ src: dlinked_list.c, linked_list.c, obj.c
 tier: B
 backend: cadical
 unwind: 10
+unwind_thorough: 12
 flags: --memory-leak-check
 bound: list length 1..4, index up to len+2 (placeholder nodes are created and must be freed by del)
 funcs: spif_dlinked_list_insert_at, spif_dlinked_list_del
@@ -50,6 +53,7 @@ src: dlinked_list.c, linked_list.c, obj.c
 tier: B
 backend: cadical
 unwind: 10
+unwind_thorough: 12
 flags: --memory-leak-check
 bound: list length <= 4
 funcs: spif_dlinked_list_to_array, spif_dlinked_list_iterator, spif_dlinked_list_iterator_del, spif_dlinked_list_del
@@ -61,6 +65,7 @@ src: dlinked_list.c, linked_list.c, obj.c
 tier: B
 backend: cadical
 unwind: 10
+unwind_thorough: 12
 flags: --memory-leak-check
 bound: list length 1..4, elements of any key, no placeholder (dup of placeholders: see C05 finding)
 funcs: spif_dlinked_list_dup, spif_dlinked_list_del
@@ -72,6 +77,7 @@ src: dlinked_list.c, linked_list.c, objpair.c, obj.c
 tier: B
 backend: cadical
 unwind: 10
+unwind_thorough: 12
 objbits: 10
 flags: --memory-leak-check
 bound: map size <= 4, all key and value keys (insert and overwrite)
@@ -84,6 +90,7 @@ src: dlinked_list.c, linked_list.c, objpair.c, obj.c
 tier: B
 backend: cadical
 unwind: 10
+unwind_thorough: 12
 objbits: 10
 flags: --memory-leak-check
 bound: map size <= 4, all key and value keys
@@ -96,6 +103,7 @@ src: dlinked_list.c, linked_list.c, objpair.c, obj.c
 tier: B
 backend: cadical
 unwind: 10
+unwind_thorough: 12
 objbits: 10
 flags: --memory-leak-check
 bound: map size <= 4, all key and value keys
